@@ -14,7 +14,7 @@ Local Open Scope Z_scope.
 Definition secp256k1_n : Z := 0xFFFFFFFFFFFFFFFFFFFFFFFFFFFFFFFEBAAEDCE6AF48A03BBFD25E8CD0364141.
 
 Inductive case :=
-| Release (coordinator : bool) (impl_sig impl_nil : bool)
+| Release (coordinator : bool) (cap : nat) (late : bool) (impl_sig impl_nil : bool) (impl_count : nat)
 | Parties (ids : list string) (impl : list (string * Z * Z))
 | SortP (peers old : list string) (impl_kind : N) (impl : list (string * Z))
 | Validate (old_t : Z) (sub key_peers store : list string) (impl : N)
@@ -77,10 +77,12 @@ Fixpoint scn_agree (q : Z) (ecdsa : bool) (obs : list sobs) : bool :=
 
 Definition agree (c : case) : bool :=
   match c with
-  | Release coordinator s n =>
-      match release coordinator tt with
-      | Some _ => s && negb n
-      | None => negb s && n
+  | Release coordinator cap _ s n count =>
+      (* the reader of the result channel (parked or late) receives exactly one value *)
+      match result_channel coordinator tt cap 1 with
+      | [Some _] => s && negb n && (count =? 1)%nat
+      | [None] => negb s && n && (count =? 1)%nat
+      | _ => false
       end
   | Parties ids impl =>
       list_eqb (map (fun e => snd (fst e)) impl) (sort_keys (map pk ids))
@@ -93,7 +95,7 @@ Definition agree (c : case) : bool :=
 
 Definition judge (c : case) : bool :=
   match c with
-  | Release coordinator s n => implb s coordinator
+  | Release coordinator _ _ s _ _ => release_ok coordinator s
   | Parties ids impl =>
       let keys := map (fun e => snd (fst e)) impl in
       forallb (fun e => snd (fst e) =? pk (fst (fst e))) impl     (* key = value of the id string *)
@@ -110,7 +112,7 @@ Definition judge (c : case) : bool :=
 
 Definition tag (c : case) : N :=
   match c with
-  | Release coordinator _ _ => if coordinator then 1 else 0
+  | Release coordinator _ _ _ _ _ => if coordinator then 1 else 0
   | Parties _ _ => 2
   | SortP peers old _ _ =>
       match sort_parties (sort_keys (map pk peers)) (sort_keys (map pk old)) with
